@@ -437,6 +437,8 @@ def graph_family(rep, n_cases, n_ops, which, known_classes=(), nproc=16):
 
 
 FIXED_GRAPH_STORIES = [
+    # @input lines with an attribute named like the token's own field, at passage level and inside blocks
+    (":: Start\n~ k = 1\n@input name=\"age\" type=\"number\"\nhi\n@if k:\n  @input name=\"guest\" type=\"jump\" target=\"Start\"\n@endif\n@for i in [1]:\n  @input name=\"x\" type=\"text\"\n@endfor\n+ [go] -> Start\n"),
     # passages registered with @hook that the player also walks into; they have choices and jumps of their own
     (":: Start\n~ hour = 0\n@hook turn_end Clock\n@hook turn_end Poison\nhi\n+ [clock] -> Clock\n+ [poison] -> Poison\n+ [wait] -> Start2\n\n"
      ":: Start2\nagain\n+ [clock] -> Clock\n+ [poison] -> Poison\n\n"
@@ -483,8 +485,8 @@ def fixed_graph_probes(rep, which):
                 ops = pre + [{"op": "choose", "i": i}]
                 real = real_play.play(story, ops)
                 n += 1
-                f18, _, _ = check_story(story, {"status": "skipped"}, {"ops": ops, "real": real}, "c18-fixed", src)
-                for f in f18:
+                f18, f12, _ = check_story(story, {"status": "skipped"}, {"ops": ops, "real": real}, which.lower() + "-fixed", src)
+                for f in (f18 if which == "C18" else [x for x in f12 if x.get("cls") is None]):
                     rep.violations.append(dict(f, ops=ops))
-    rep.coverage.setdefault("families", {})["c18-fixed"] = {"cases": n}
+    rep.coverage.setdefault("families", {})[which.lower() + "-fixed"] = {"cases": n}
     rep.coverage["evaluations"] = rep.coverage.get("evaluations", 0) + n
